@@ -184,3 +184,37 @@ Proof.
     - cbn [o_path]. apply mem_In. exact Hin. }
   rewrite X. rewrite orb_true_r. reflexivity.
 Qed.
+
+(* ---------- output_inside_outdir for every kind of output file ---------- *)
+Lemma render_nonempty_rel t dir name hash ext e : e <> [] -> render (t ++ [(e, None)]) dir name hash ext <> [].
+Proof.
+  intro He. unfold render. rewrite map_app, concat_app. simpl. rewrite !app_nil_r.
+  intro H. apply app_eq_nil in H as [_ H]. contradiction.
+Qed.
+
+Lemma entry_inside outdir tmpl outbase entry custom hash ext :
+  is_rooted outdir = true -> ext <> [] ->
+  no_dotdot_seg (entry_rel_path tmpl outbase entry custom hash ext) = true ->
+  entry_out_path outdir tmpl outbase entry custom hash ext =
+  SL :: join_with SL (clean_segs outdir ++ filter proper (split_on SL (entry_rel_path tmpl outbase entry custom hash ext))).
+Proof.
+  intros HR HE HD. unfold entry_out_path. apply fs_join_inside; try assumption.
+  unfold entry_rel_path. destruct (path_relative_to_outbase _ _ _ _). apply render_nonempty_rel. exact HE.
+Qed.
+
+Lemma chunk_inside outdir tmpl hash ext :
+  is_rooted outdir = true -> ext <> [] ->
+  no_dotdot_seg (chunk_rel_path tmpl hash ext) = true ->
+  chunk_out_path outdir tmpl hash ext =
+  SL :: join_with SL (clean_segs outdir ++ filter proper (split_on SL (chunk_rel_path tmpl hash ext))).
+Proof.
+  intros HR HE HD. unfold chunk_out_path. apply fs_join_inside; try assumption.
+  unfold chunk_rel_path. apply render_nonempty_rel. exact HE.
+Qed.
+
+Lemma asset_inside outdir tmpl outbase asset hash :
+  is_rooted outdir = true -> asset_rel_path tmpl outbase asset hash <> [] ->
+  no_dotdot_seg (asset_rel_path tmpl outbase asset hash) = true ->
+  asset_out_path outdir tmpl outbase asset hash =
+  SL :: join_with SL (clean_segs outdir ++ filter proper (split_on SL (asset_rel_path tmpl outbase asset hash))).
+Proof. intros HR HN HD. unfold asset_out_path. apply fs_join_inside; assumption. Qed.
